@@ -272,6 +272,7 @@ type bEnv struct {
 	srcQ    map[string][]string
 	checkEO bool
 	yield   bool
+	fetchN  map[string]int
 	mu      sync.Mutex
 }
 
@@ -392,6 +393,16 @@ func subSeq(s string) []interface{} {
 func (e *bEnv) FetchSourcePackage(ctx context.Context, sourceType string, u *url.URL, targetDir string) (sourcebundle.FetchSourcePackageResponse, error) {
 	e.boundary()
 	name := strings.ToUpper(strings.TrimSuffix(strings.TrimSuffix(filepath.Base(u.Path), ".git"), ".tgz"))
+	if e.yield {
+		// free-running concurrent builds: a fetch takes a while, and every package is fetched at most once
+		e.mu.Lock()
+		if e.fetchN == nil {
+			e.fetchN = map[string]int{}
+		}
+		e.fetchN[name]++
+		e.mu.Unlock()
+		time.Sleep(500 * time.Microsecond)
+	}
 	if pop(e.fetchQ, name) == "fail" {
 		e.call("Fetch", name, "fail")
 		return sourcebundle.FetchSourcePackageResponse{}, fmt.Errorf("scripted fetch failure")
@@ -413,6 +424,11 @@ func (e *bEnv) FetchSourcePackage(ctx context.Context, sourceType string, u *url
 				os.Mkdir(filepath.Join(targetDir, "empty"), 0750)
 				os.WriteFile(filepath.Join(targetDir, "exe"), []byte(fmt.Sprintf("content-%d exe", f.Content)), 0755)
 				os.Chmod(filepath.Join(targetDir, "m", "f"), 0600)
+				// permission bits that are all zero are permission bits too
+				os.WriteFile(filepath.Join(targetDir, "zero"), []byte(fmt.Sprintf("content-%d zero", f.Content)), 0644)
+				os.Chmod(filepath.Join(targetDir, "zero"), 0)
+				os.Mkdir(filepath.Join(targetDir, "zdir"), 0755)
+				os.Chmod(filepath.Join(targetDir, "zdir"), 0)
 				// a package that keeps what the built-in rules exclude, through its own rule file
 				os.WriteFile(filepath.Join(targetDir, ".terraformignore"), []byte("!.git/\n!.terraform/\n"), 0644)
 				os.MkdirAll(filepath.Join(targetDir, ".git"), 0755)
@@ -1179,9 +1195,18 @@ func builderMain() int {
 						e3.yield = true
 						b3 := e3.buildConcurrent(c.Adds)
 						sha3, _ := manifestOf(e3.dir)
-						if b3 == nil || sha3 != sha || len(e3.obs.Unscripted) != 0 {
+						twice := ""
+						for k, n := range e3.fetchN {
+							if n > 1 {
+								twice = k
+							}
+						}
+						if b3 == nil || sha3 != sha || len(e3.obs.Unscripted) != 0 || twice != "" {
 							obs.ConcSame = false
-							obs.ConcWhy = fmt.Sprintf("bundle=%v manifest %s vs %s unscripted=%v", b3 != nil, sha3, sha, e3.obs.Unscripted)
+							if twice != "" {
+								obs.ConcWhy = "package " + twice + " fetched more than once by overlapping Add calls; "
+							}
+							obs.ConcWhy += fmt.Sprintf("bundle=%v manifest %s vs %s unscripted=%v", b3 != nil, sha3, sha, e3.obs.Unscripted)
 						}
 					}
 				}
